@@ -42,7 +42,7 @@ ANCHORS = [
     ('pjrpc/server/validators/jsonschema.py', 'JsonSchemaValidator.validate_method'),
     ('pjrpc/server/validators/pydantic.py', 'PydanticValidator.validate_method'),
 ]
-FLOORS = {'*': {'history:cases': 300, 'history:probes-after-failure': 50, 'history:probes-after-context-request': 50,
+FLOORS = {'*': {'history:cases': 300, 'history:probes-after-failure': 50, 'history:probes-after-context-request': 50, 'history:step-that-raised-out-of-dispatch': 50,
                 'leak:function': 6, 'leak:positional-context': 6, 'leak:view': 6, 'leak:base': 6, 'leak:jsonschema': 6,
                 'leak:pydantic': 6, 'leak:N=1000': 3, 'threads:runs': 4, 'threads:injected-yields': 1000,
                 'threads:distinct-lines': 20, 'threads:overlapping-dispatches': 100, 'threads:responses': 2000, 'threads:cold-dispatcher-with-middlewares': 40, 'growth:runs': 8}}
@@ -57,7 +57,14 @@ PROBES = [
     [docs.obj(id='p', method='noargs'), docs.obj(method='ok', params=['n']), docs.obj(id='q', method='whoami')],
     docs.obj(id='p', method='kwonly', params={'a': 1}),
     docs.obj(id='p', method='js_loose', params=['not-an-ip']), docs.obj(id='p', method='js_checked', params=['10.0.0.1']),
+    # failing probes: the error paths (and whatever they need: encoder, handlers, validators) must not depend on the past either
+    docs.obj(id='p', method='ok', params={'zz': 1}), docs.obj(id='p', method='nope'),
+    docs.obj(id='p', method='rpcerr', params=[1234, 'm', {'d': [1]}]), docs.obj(id='p', method='boom', params=['ValueError', 'x']),
+    docs.obj(id='p', method='js_checked', params=['bad']), docs.obj(id='p', method='typedctor', params=[5]),
+    [docs.obj(id='p', method='ok', params=[]), docs.obj(id='q', method='raiselib', params=['InvalidRequestError'])],
 ]
+UNENCODABLE = [docs.obj(id=1, method='unenc', params=[w]) for w in ('set', 'object', 'bytes', 'nested')] + \
+    [[docs.obj(id=1, method='ok', params=[1]), docs.obj(id=2, method='unenc')]]
 
 
 def history_pool(rng):
@@ -81,6 +88,9 @@ def run_history(ctx, history, probe, is_async):
         token += 1
         text = h if isinstance(h, str) else json.dumps(h)
         o = serverside.observe(used, text, context=world.Context(f'h{token}'))
+        if o.status == 'exc' and h in UNENCODABLE:
+            ctx.hit('history:step-that-raised-out-of-dispatch')     # a result the encoder refuses: not judged, but it is history
+            continue
         if o.status == 'exc':
             ctx.violation(f'dispatch-raises:{type(o.exc).__name__}', 'history', (json.dumps(history, default=str), probe, kind),
                           history=history, exception=o.exc)
@@ -486,6 +496,9 @@ def gen(ctx):
         crafted.append([a])
         for b in ctx_reqs:
             crafted.append([a, b])
+    for u in UNENCODABLE:
+        crafted.append([u])
+        crafted.append([ctx_reqs[0], u, ctx_reqs[3]])
     for h in crafted:
         for p in range(len(PROBES)):
             k += 1
@@ -493,6 +506,8 @@ def gen(ctx):
     for _ in range(60000 if deep else 5000):
         n = rng.randint(1, 12 if full else 6)
         h = [rng.choice(pool) for _ in range(n)]
+        if k % 5 == 0:
+            h.insert(rng.randrange(len(h) + 1), rng.choice(UNENCODABLE))
         k += 1
         yield 'history', dict(history=h, probe=rng.randrange(len(PROBES)), is_async=bool(k % 2))
     for style in ('function', 'positional-context', 'view'):
